@@ -6,18 +6,18 @@
 EXTENDS JEval
 
 \* open choices (behaviours the property texts leave open) - every combination is allowed
-OpenFlags == <<"o1_undef_wins", "group_collapse", "name_unit", "floor_params", "hof_collapse", "group_undef_null">>
+OpenFlags == <<"o1_undef_wins", "group_collapse", "name_unit", "floor_params", "hof_collapse", "group_undef_null", "url_form", "sort_empty_arr">>
 \* the default is what the pinned port does, so that the first evaluation normally matches
 DefaultMd == [o1_undef_wins |-> FALSE, group_collapse |-> FALSE, name_unit |-> TRUE,
-              floor_params |-> FALSE, hof_collapse |-> FALSE, group_undef_null |-> TRUE, dev |-> "none"]
+              floor_params |-> FALSE, hof_collapse |-> FALSE, group_undef_null |-> TRUE, url_form |-> TRUE, sort_empty_arr |-> TRUE, dev |-> "none"]
 \* named deviations of the pinned tree from the specification: used only to classify a
 \* mismatch as a listed known finding, never to accept it
 KnownDevs == <<>>
 
-RECURSIVE AllMds(_)
-AllMds(i) == IF i > Len(OpenFlags) THEN {DefaultMd}
-             ELSE LET rest == AllMds(i + 1) IN rest \cup {[m EXCEPT ![OpenFlags[i]] = ~@] : m \in rest}
-OpenMds == AllMds(1)
+\* the default, every single departure from it and every pair of departures
+Flip(m, i) == [m EXCEPT ![OpenFlags[i]] = ~@]
+OpenMds == {DefaultMd} \cup {Flip(DefaultMd, i) : i \in 1..Len(OpenFlags)}
+           \cup {Flip(Flip(DefaultMd, i), j) : i \in 1..Len(OpenFlags), j \in 1..Len(OpenFlags)}
 
 InitStore(input, binds, md) ==
     [fr |-> << [p |-> 0, m |-> << <<"$", input>> >> \o binds] >>, md |-> md, perm |-> FALSE]
